@@ -877,7 +877,19 @@ class Engine:
         f2 = st2.frames[-1]; f2.ip -= 1
         t2[2] = (id(f2.fn), f2.bi, f2.ip + 1)
         st2.cur = others[0]; st2.frames = st2.threads[st2.cur][0]
-        st2.notes.append('preemption #%d: worker %d interrupted in %s before a conflicting access, worker %d runs' % (st2.preempts, st.cur, fr.fn.name, st2.cur))
+        loc = None
+        try:
+            from ir import source_location
+            did = fr.fn.dbg[fr.bi][fr.ip - 1]
+            loc = source_location(s.m, did) if did else None
+        except Exception:
+            loc = None
+        # how many times this source line was reached before on this path (any worker): lets the native replay delay the same arrival
+        hk = 'hits:%s' % (loc,)
+        st.env = dict(st.env); hit = st.env.get(hk, 0); st.env[hk] = hit + 1
+        st2.env = dict(st2.env); st2.env[hk] = hit + 1
+        st2.env['preempt_loc'] = (loc[0], loc[1], hit) if loc else None
+        st2.notes.append('preemption #%d: worker %d interrupted in %s (%s) before a conflicting access, worker %d runs' % (st2.preempts, st.cur, fr.fn.name, '%s:%d' % loc if loc else '?', st2.cur))
         raise_switch = st2
         s.work.append(raise_switch)
 
@@ -925,7 +937,7 @@ class Engine:
                 s.exec_path(st)
             except Violation as v:
                 s.violations.append({'kind': v.kind, 'msg': v.msg, 'model': v.model, 'where': s.where(st), 'notes': st.notes[-8:], 'choices': st.choices[:],
-                                     'failed_alloc': st.failed_alloc, 'io_failed': st.env.get('io_failed'), 'io_fail_op': st.env.get('io_fail_op'), 'interfered': st.env.get('interfered'), 'poke': st.env.get('poke'), 'steps': st.steps})
+                                     'failed_alloc': st.failed_alloc, 'io_failed': st.env.get('io_failed'), 'io_fail_op': st.env.get('io_fail_op'), 'interfered': st.env.get('interfered'), 'poke': st.env.get('poke'), 'preempt_loc': st.env.get('preempt_loc'), 'steps': st.steps})
             except PathEnd as e:
                 if e.why == 'end':
                     s.finish_path(st)
@@ -976,7 +988,7 @@ class Engine:
                     return mdl.eval(c, model_completion=True).as_long()
                 obs = [(tag, [ev(c) for c in cells]) for tag, cells in st.obs]
                 s.completed_samples.append({'inputs': s.model_dict(st, mdl), 'obs': obs, 'steps': st.steps, 'choices': st.choices[:], 'notes': st.notes[-6:],
-                                            'failed_alloc': st.failed_alloc, 'io_failed': st.env.get('io_failed'), 'io_fail_op': st.env.get('io_fail_op'), 'interfered': st.env.get('interfered'), 'poke': st.env.get('poke')})
+                                            'failed_alloc': st.failed_alloc, 'io_failed': st.env.get('io_failed'), 'io_fail_op': st.env.get('io_fail_op'), 'interfered': st.env.get('interfered'), 'poke': st.env.get('poke'), 'preempt_loc': st.env.get('preempt_loc')})
             except (EngineLimit, z3.Z3Exception):
                 pass
 
